@@ -14,7 +14,7 @@ RULE = ('case = one real emulate_cycle() on (word, instruction set, IT position,
         'programs; a third of the VMSA steps run with the MMU on and translation registers (TTBCR incl. EAE, TTBRs, DACR, '
         'PRRR/NMRR, MAIR, HCR.VM/VTCR/VTTBR, HTCR/HTTBR) pointing at arbitrary RAM contents; every MCR/MRC (and MCRR/MRRC) '
         'register address of cp14/cp15 written then read on one long-lived instance with an audit that no register object '
-        'changed type, followed by take_reset(); every data-accessing encoding row of the reference tables with register pools, field products and addresses solved onto RAM, device ends and the edges of the address space in twelve contexts (host errors only are judged here); translation walks over generated page-table sets of both descriptor formats with reserved / IMPLEMENTATION DEFINED descriptor bits drawn at random; non-trivial = the step got past decode (an opcode object executed or an architectural exception '
+        'changed type, followed by take_reset(); every data-accessing encoding row of the reference tables with register pools, field products and addresses solved onto RAM, device ends and the edges of the address space in fourteen contexts, one of them with the second stage of translation on and two gigabytes invalid there (stage-2 aborts to Hyp mode build the load/store instruction syndrome of the executing class) (host errors only are judged here); translation walks over generated page-table sets of both descriptor formats with reserved / IMPLEMENTATION DEFINED descriptor bits drawn at random; non-trivial = the step got past decode (an opcode object executed or an architectural exception '
         'was taken); distinct = (instruction set, decoder path id or T16 word>>4, outcome, context)')
 ASSUMPTIONS = ['NotImplementedError escaping emulate_cycle is the documented not-implemented outcome',
                'machine states are generated valid (legal mode for the configuration, J=0, IT=0 in ARM state; VTCR.SL0/T0SZ '
@@ -274,7 +274,7 @@ def hostile_mmu(cpu, cfg, rng, ns):
 ROW_FAMILY = ('ls', 'ldm', 'stm', 'push', 'pop', 'ldm_eret', 'ldm_user', 'stm_user', 'srs', 'rfe', 'tbb', 'ldrex', 'strex', 'swp')
 ROW_CTXS = [('v7-vmsa-virt', 'off'), ('v7-vmsa-sec', 'off'), ('v7-pmsa-r', 'off'), ('v6-pmsa-sec', 'off'), ('v6-pmsa', 'off'),
             ('v5-pmsa', 'off'), ('v4-pmsa', 'off'), ('v6-vmsa', 'off'), ('v7-vmsa-virt-impdef', 'off'), ('v6-pmsa-sec', 'mpu'),
-            ('v7-vmsa-sec', 'mmu'), ('v7-vmsa-virt', 'mmu-ld')]
+            ('v7-vmsa-sec', 'mmu'), ('v7-vmsa-virt', 'mmu-ld'), ('v7-vmsa-virt', 's2'), ('v7-vmsa-virt', 's2')]
 
 
 def run_shard(spec):
@@ -290,10 +290,16 @@ def run_shard(spec):
             elif ctx.cfg['arch_version'] == 6:
                 r.sctlr.u = rng.randrange(2)
             r.sctlr.a = 1 if rng.random() < 0.2 else 0
+            if ctx.prot == 's2' and desc.get('ns') == 1 and desc.get('mode') not in ('hyp', 'mon'):
+                # second stage of translation on: accesses to the two invalid gigabytes of the stage-2 map fault to Hyp mode
+                # with the load/store instruction syndrome of the executing instruction class in HSR
+                r.hcr.vm = 1
+                desc['stage2'] = True
         # targets: the boundaries of the lock-step checks plus plain addresses INSIDE a RAM device in every alignment class
         # (the access that simply succeeds is what takes an instruction down its deepest path)
         targets = L.BOUNDARY_TARGETS + [0x100, 0x108, 0x110, 0x1F8, 0x104, 0x10C, 0x102, 0x101, 0x10800, 0x10808, 0x11000,
                                         0x11008, 0x10804, 0x7000, 0x7008, 0xFFFFF800, 0xFFFFF808, 0xFFFFF804] * 2
+        targets += [0x80000010, 0x80000008, 0x40000000, 0x7FFFFFFC, 0xBFFFFFF8, 0x80000002] * 2     # (invalid at stage 2 in the 's2' context)
         return L.run_rows(ID, spec, ROW_FAMILY, ctxs=ROW_CTXS, after=after, solve_addr=0.85, host_only=True, solve_targets=targets)
     mon = Mon(spec)
     rng = mon.rng
@@ -569,6 +575,8 @@ def finish(agg, tier, seed):
         inc.append('system-register sweep incomplete (%d steps, %d type audits)' % (c.get('sysreg_steps', 0), c.get('type_audits', 0)))
     if c.get('row_steps_ok', 0) < 5000 or c.get('addresses_solved_base', 0) < 1000:
         inc.append('too few row-generated data-access steps (%d, %d with a solved address)' % (c.get('row_steps_ok', 0), c.get('addresses_solved_base', 0)))
+    if c.get('row_steps_stage2_abort_taken_to_hyp', 0) < 200:
+        inc.append('too few stage-2 aborts taken to Hyp mode (%d)' % c.get('row_steps_stage2_abort_taken_to_hyp', 0))
     if c.get('walks_ok', 0) < 300 or c.get('walks_abort', 0) < 300:
         inc.append('too few translation walks over generated tables (%d completed, %d aborted)' % (c.get('walks_ok', 0), c.get('walks_abort', 0)))
     return dict(inconclusive=inc, coverage=dict(
